@@ -20,6 +20,16 @@ The recorded runs use the shared fault-injecting store under the real Blockchain
 follows the status of that finding in known_findings.json ("known": the code as it was; fixed or
 not listed: the repaired design).
 
+The accessor: the property is about the head the node REPORTS (Blockchain.L1Head(), what rpc / metrics
+use), so L1.tla has the accessor as an observable of its own: reads with a start and an end that may
+overlap the client's SetL1Head, a restart building a new Blockchain on the record on disk
+(ReportedIsRecorded, ReadsMonotone, AccessorIsRecord; L1_acc.cfg exhaustive). Expected violation:
+L1_x_cache (an in-memory copy filled by readers check-then-act). Error kinds: a failing answer of the L1
+node is a transport error, a timeout, eth.ErrNotFound or context.Canceled; every failing FinalisedHeight
+answer inside setL1Head is retried and changes nothing (FailedFinIsRetried), the head moves only at an
+answer that reported a finalised height and not above it (HeadWithinReported). Expected violations:
+L1_x_notfound / L1_x_notfound2 (a not-found answer replaced by LatestHeight).
+
 Binding: trace validation. The engine runs the REAL l1.Client against (mode 1) a gated scripted
 L1StateProvider and (mode 2) the REAL GethL1StateProvider connected by websocket to an in-process
 go-ethereum rpc.Server that serves the same scripted node (gates in the rpc handlers), and a real
@@ -34,7 +44,7 @@ import vlib
 
 FAMILY = "l1"
 CLIENT_EVENTS = ("CallChainID", "CallLatest", "CallFilter", "CallFin", "CallWatch", "NewHead", "Read",
-                 "Feed", "WriteFail", "Stopped")
+                 "Feed", "WriteFail", "Stopped", "ReadStart", "ReadEnd")
 CATCHUP_WRITE_KEY = "l1:head-write-failed:running-with-stale-record:catchup"
 
 
@@ -72,6 +82,7 @@ def validate(ctx, events, label):
             for r in todo:
                 for e in r:
                     e.setdefault("w", 0)   # runs recorded before the write-fault dimension existed
+                    e.setdefault("k", "" if e.get("x") == 1 or not e["ev"].startswith("Ret") else "transport")  # ... before error kinds
                     f.write(json.dumps(e) + "\n")
         ok, res = ctx.tlc_trace(FAMILY, "L1Trace.tla", trace_cfg(ctx), path, timeout=1800)
         if ok:
@@ -135,7 +146,7 @@ def run(ctx):
     r = ctx.tlc_check(FAMILY, "L1.tla", "L1_quick.cfg", timeout=1500, coverage=thorough,
                       label="L1: 3 blocks, 3 events, 1 reorg, 1 failure, 1 write failure, 1 restart, chunk {1,2,10}")
     if thorough:
-        vlib.require_actions_covered(r)
+        vlib.require_actions_covered(r, ignore=("ReadStart", "ReadEnd"))   # the accessor dimension: L1_acc.cfg
         ctx.tlc_check(FAMILY, "L1.tla", "L1_thorough.cfg", timeout=3000,
                       label="L1: 4 blocks, 3 events, 1 reorg, 1 failure, 1 write failure, 1 restart, chunk {1,2,10}")
         ctx.tlc_check(FAMILY, "L1.tla", "L1_thorough2.cfg", timeout=3000,
@@ -145,8 +156,23 @@ def run(ctx):
         if s_["violated"] != "NeverStopped":
             raise vlib.Broken("vacuity: the stop after a failed write is not reachable (%s)" % s_["violated"])
         ctx.tlc_runs[-1]["expected_violation"] = "NeverStopped (reachability)"
-    # the write-fault mechanisms that can fail, each as a model that MUST violate its property
+    # the accessor dimension: reads (start .. end) overlapping SetL1Head, restart with a record on disk
+    a_ = ctx.tlc_check(FAMILY, "L1.tla", "L1_acc.cfg", timeout=1500, coverage=thorough,
+                       label="L1 accessor: 3 reads overlapping the client, 3 blocks, 2 events, 1 write failure, 1 restart, chunk {2,10}")
+    if thorough:
+        vlib.require_actions_covered(a_, ignore=("AReorg", "ASubFail", "AHandleSubErr"))
+        ctx.tlc_check(FAMILY, "L1.tla", "L1_acc2.cfg", timeout=3000,
+                      label="L1 accessor: 2 reads overlapping the client, 3 blocks, 3 events, 1 reorg, 1 write failure, 1 restart, chunk {2,10}")
+    o_ = ctx.tlc_check(FAMILY, "L1.tla", "L1_x_overlap.cfg", timeout=600, expect_violation=True,
+                       label="L1 reachability: a read overlapping a SetL1Head (expected violation of NoOverlap)")
+    if o_["violated"] != "NoOverlap":
+        raise vlib.Broken("vacuity: no read overlaps a SetL1Head in the model (%s)" % o_["violated"])
+    ctx.tlc_runs[-1]["expected_violation"] = "NoOverlap (reachability)"
+    # the mechanisms that can fail, each as a model that MUST violate its property
     for cfg, prop, label in (
+            ("L1_x_cache.cfg", "ReportedIsRecorded", "Blockchain.L1Head() served from an in-memory copy that readers fill check-then-act"),
+            ("L1_x_notfound.cfg", "HeadWithinReported", "a not-found answer of FinalisedHeight inside setL1Head replaced by LatestHeight"),
+            ("L1_x_notfound2.cfg", "StoredFinalisedCanonical", "the same: the record ends above the finalised height / on a removed commit"),
             ("L1_x_swallow.cfg", "RunningImpliesRecorded", "tick path swallows a failed write of the head"),
             ("L1_x_catchupwrite.cfg", "RunningImpliesRecorded", "Run treats a failed write at the end of catch-up as best effort (code before repair)"),
             ("L1_x_announce.cfg", "AnnouncedIsRecorded", "head announced on the feed before it is written")):
@@ -161,6 +187,37 @@ def run(ctx):
         raise vlib.Broken("L1_lag.cfg no longer exhibits the documented schedule (%s)" % h["violated"])
     ctx.tlc_runs[-1]["expected_violation"] = "StoredFinalisedCanonical"
 
+    # ---- directed scenarios (both recorder modes): every error kind of FinalisedHeight while non-finalised commits are
+    # buffered, then a reorg of the non-finalised block; restart with a head on disk and the first read of the accessor
+    # held in its database Get across the client's SetL1Head; the client held in front of its Put while a read runs
+    devents = []
+    for geth in (False, True):
+        tname = "l1directed%d.ndjson" % geth
+        dres = ctx.run_engine(binary, "TestL1Directed", {"seed": ctx.seed, "geth": geth, "trace_out": tname}, timeout=900)
+        dst = dres.get("stats", {})
+        before = len(ctx.violations)
+        ctx.absorb(dres, "l1", "TestL1Directed")
+        for k, v in dst.items():  # keep the directed counters apart from the recorded runs'
+            if isinstance(v, (int, float)):
+                ctx.coverage[k] = ctx.coverage.get(k, 0) - v
+                if k.startswith("scenario:"):
+                    ctx.coverage.pop(k, None)
+                ctx.coverage[("directed_geth_" if geth else "directed_") + k] = v
+        if len(ctx.violations) == before:
+            if dst.get("broken_runs"):
+                raise vlib.Broken("directed scenarios hit a harness timeout (geth=%s): %s" % (geth, dres.get("samples")))
+            kinds = ("transport", "notfound") if geth else ("transport", "timeout", "notfound", "cancel")
+            missing = [k for k in kinds if dst.get("fin_errors_retried_" + k, 0) < 3 or not dst.get("scenario:finalised-height-fails:" + k)]
+            if (missing or dst.get("overlapping_reads_across_a_write", 0) < 2 or not dst.get("overlapping_reads_after_restart_with_head")
+                    or not dst.get("reads_before_a_held_put")):
+                raise vlib.Broken("directed scenarios are vacuous (geth=%s, missing kinds %s): %s" % (geth, missing, dst))
+        with open(os.path.join(ctx.scratch, tname)) as f:
+            devents += [json.loads(x) for x in f if x.strip()]
+    dacc, drej = validate(ctx, devents, "directed")
+    ctx.traces_validated += dacc
+    report_rejections(ctx, drej)
+    ctx.coverage["directed_runs_accepted_by_tlc"] = dacc
+
     ntr = 3000 if thorough else 400
     res = ctx.run_engine(binary, "TestL1Record", {"traces": ntr, "seed": ctx.seed, "rounds": 30,
                                                  "trace_out": "l1trace.ndjson"}, timeout=2400)
@@ -172,7 +229,11 @@ def run(ctx):
     if not ctx.violations and (
             not st.get("setheads_checked") or not st.get("reorgs_with_notices") or not st.get("filter_chunks")
             or not st.get("restarts") or not st.get("feed_heads_seen")
-            or not st.get("write_faults_fired") or not st.get("stops_after_write_failure") or not st.get("restarts_after_stop")):
+            or not st.get("write_faults_fired") or not st.get("stops_after_write_failure") or not st.get("restarts_after_stop")
+            or not st.get("overlapping_reads_across_a_write") or not st.get("overlapping_reads_after_restart_with_head")
+            or not st.get("reads_before_a_held_put") or not st.get("accessor_reads")
+            or not st.get("fin_errors_retried_notfound") or not st.get("fin_errors_retried_timeout")
+            or not st.get("fin_errors_with_unfinalised_commits_buffered")):
         raise vlib.Broken("recorded runs are vacuous: %s" % st)
     with open(os.path.join(ctx.scratch, "l1trace.ndjson")) as f:
         events = [json.loads(x) for x in f if x.strip()]
@@ -201,7 +262,8 @@ def run(ctx):
         if isinstance(v, (int, float)):
             ctx.coverage[k] = ctx.coverage.get(k, 0) - v
             ctx.coverage["geth_" + k] = v
-    if len(ctx.violations) == before and (not gst.get("setheads_checked") or not gst.get("pushes") or not gst.get("filter_chunks")):
+    if len(ctx.violations) == before and (not gst.get("setheads_checked") or not gst.get("pushes") or not gst.get("filter_chunks")
+                                          or not gst.get("overlapping_reads_across_a_write") or not gst.get("fin_errors_retried_notfound")):
         raise vlib.Broken("geth-mode runs are vacuous: %s" % gst)
     with open(os.path.join(ctx.scratch, "l1geth.ndjson")) as f:
         gevents = [json.loads(x) for x in f if x.strip()]
@@ -248,6 +310,21 @@ def run(ctx):
     ctx.coverage["selftest_write_failure"] = "client running on after a failed write rejected at event %d (%s)" % (
         rej3[0][1] + 1, rej3[0][2]["ev"])
 
+    # ... and a run whose overlapping read returns another head than the one its Get found
+    probe = None
+    for r_ in runs:
+        idx = [i for i, e in enumerate(r_) if e["ev"] == "ReadEnd"]
+        if idx:
+            probe = [dict(e) for e in r_]
+            probe[idx[0]]["x"] += 1
+            break
+    if probe is None:
+        raise vlib.Broken("no conforming run contains a read of the accessor overlapping a SetL1Head")
+    acc4, rej4 = validate(ctx, probe, "selftest3")
+    if not rej4 or rej4[0][2]["ev"] != "ReadEnd":
+        raise vlib.Broken("binding self-test: a run with a corrupted ReadEnd event was accepted (%s)" % (rej4[:1],))
+    ctx.coverage["selftest_accessor"] = "corrupted ReadEnd rejected at event %d" % (rej4[0][1] + 1)
+
     # directed schedule outside the timing assumption: an observation, never a verdict
     lag = ctx.run_engine(binary, "TestL1LagScenario", {}, timeout=300)
     if lag.get("stats", {}).get("lag_reproduced"):
@@ -270,12 +347,26 @@ def run(ctx):
         "store); the property is read conditionally: a client still running after a completed setL1Head has the best merged "
         "finalised event recorded; a failed write may stop the client (the node goes down with the service and is started "
         "again); reads of the record do not fail (the client never reads it)" % 2,
+        "the head 'the node records and uses' is observed at the accessor Blockchain.L1Head() as well as in the database: "
+        "a call that overlaps a SetL1Head may report the head before or after it (linearisable register), a call entered "
+        "after SetL1Head has returned reports that head or a later one; a restart is a new Blockchain object on the same store",
+        "a failing answer of the L1 node has a kind (transport error, context.DeadlineExceeded, eth.ErrNotFound = 'no finalised "
+        "block', context.Canceled out of the provider while the client's context is live); behind the real GethL1StateProvider "
+        "two kinds are produced: a JSON-RPC / connection error and the null answer to eth_getBlockByNumber('finalized'); "
+        "a failing FinalisedHeight answer reports no finalised height: the model as coded retries it",
     ]
     return ctx.finish(
         "model_checking",
-        "exhaustive TLC on L1.tla (incl. failed writes of the head record, client stop and restart); seeded scheduler scripts "
-        "(mine / finalise / reorg / push / subscription failure / call failure / failed Put of the head record at a setL1Head, "
+        "exhaustive TLC on L1.tla (incl. failed writes of the head record, client stop and restart, four kinds of failing "
+        "answers, reads of the accessor overlapping SetL1Head); seeded scheduler scripts "
+        "(mine / finalise / reorg / push / subscription failure / call failure of a random kind / failed Put of the head "
+        "record at a setL1Head / restart = new Blockchain + new client on the same store, "
         "catch-up chunk size in {1,2,3,10}, three poll intervals) drive the real l1.Client through a gated provider "
-        "and, for a smaller slice, through the real GethL1StateProvider over an in-process go-ethereum rpc server; "
-        "every run is validated by TLC against L1.tla (trace validation with silent Consume) and by a direct monitor; "
+        "and, for a smaller slice, through the real GethL1StateProvider over an in-process go-ethereum rpc server; in a share "
+        "of the node processes the first call of Blockchain.L1Head() is a reader's, held by the store in its Get of the record "
+        "while the client records another head, in others the client is held in front of its Put while a complete call runs; "
+        "directed scenarios cover every error kind of FinalisedHeight with non-finalised commits buffered followed by a reorg of "
+        "the non-finalised block, and the restart / overlap schedules, in both modes; "
+        "every run is validated by TLC against L1.tla (trace validation with silent Consume; ReadStart / ReadEnd events) and by a "
+        "direct monitor that compares accessor and database record at every step; "
         "non-trivial = the run contains at least one setL1Head whose database result was compared")
